@@ -49,6 +49,7 @@ def spelling_cells():
                 rd = f"{obs} = {tok};" if wide else f"{obs} = (int64_t){tok};"
                 if acc in ("r", "rw"):
                     cells.append((f"read {tok}", f"{{ {rd} }}"))
+                    cells.append((f"read-arithmetic {tok}", f"{{ {obs} = (int64_t)({tok} + 1); ReV = ({tok} == 3); }}"))
                 if acc == "w":
                     cells.append((f"read-unwritten-dest {tok}", f"{{ {rd} }}"))
                 if vn == "V" and acc in ("w", "rw"):
@@ -62,6 +63,7 @@ def spelling_cells():
             o = classify(tok)
             rd = f"RddV = {tok};" if o and o.width == 64 else f"RddV = (int64_t){tok};"
             cells.append((f"read {tok}", f"{{ {rd} }}"))
+            cells.append((f"read-arithmetic {tok}", f"{{ RddV = (int64_t)({tok} + 1); ReV = ({tok} == 3); }}"))
             if not new:
                 cells.append((f"write {tok}", f"{{ {tok} = RttV; }}"))
                 cells.append((f"write-then-read {tok}", f"{{ {tok} = RttV; RddV = (int64_t)({tok} + 1); }}"))
@@ -71,6 +73,7 @@ def spelling_cells():
             wide = a in ALIAS_64
             rd = f"RddV = {tok};" if wide else f"RddV = (int64_t){tok};"
             cells.append((f"read {tok}", f"{{ {rd} }}"))
+            cells.append((f"read-arithmetic {tok}", f"{{ RddV = (int64_t)({tok} + 1); ReV = ({tok} == 3); }}"))
             if not new:
                 cells.append((f"write {tok}", f"{{ {tok} = RttV; }}"))
                 cells.append((f"read-then-write {tok}", f"{{ RddV = (int64_t){tok}; {tok} = RttV; }}"))
